@@ -293,6 +293,8 @@ def _value_back_ok(d, v, back, t01: bool) -> tuple[bool, str]:
         return False, "discrete"
     if type(back) is not float and not isinstance(back, float):
         return False, "type"
+    if back != back or back in (float("inf"), float("-inf")):
+        return False, "not_finite"
     if d.log:
         n = 4 + 2 * abs(math.log(max(abs(v), 1e-300)))
         if t01:  # the affine map acts on log-space values: error ~ eps*max|ln bound|, amplified by exp
@@ -350,12 +352,21 @@ def check_transform(ctx: Ctx, rng, space: dict, values: dict) -> None:
         nconf = max(len(v) for v in values.values())
         for i in range(min(nconf, 4)):
             conf = {k: values[k][i % len(values[k])] for k in space}
-            x = tr.transform(conf)
+            try:
+                x = tr.transform(conf)
+            except Exception as e:  # noqa: BLE001
+                ctx.violation({"kind": "transform_raised", "exc": type(e).__name__, **flags}, str(e), {"space": desc, "conf": conf, **flags})
+                continue
             ctx.count("transform_roundtrips")
             inside = np.all((x >= B[:, 0] - 1e-9 * np.maximum(1, np.abs(B[:, 0]))) & (x <= B[:, 1] + 1e-9 * np.maximum(1, np.abs(B[:, 1]))))
             if not inside:
                 ctx.violation({"kind": "transformed_point_outside_bounds", **flags}, f"{x.tolist()} not in {B.tolist()}", {"space": desc, "conf": conf, **flags})
-            back = tr.untransform(x)
+            try:
+                back = tr.untransform(x)
+            except Exception as e:  # noqa: BLE001
+                ctx.violation({"kind": "untransform_raised", "exc": type(e).__name__, "of_a_transformed_contained_value": True, **flags}, str(e),
+                              {"space": desc, "conf": conf, **flags})
+                continue
             for name, d in space.items():
                 ok, how = _value_back_ok(d, conf[name], back[name], t01)
                 ctx.count(f"back_{how}")
